@@ -2,7 +2,8 @@
 
 // Driver for C23 (see /verif/DESIGN.md, /verif/spec/Mempool.tla): records every public call on a real
 // mempool.Mempool as ndjson (arguments, result, and a projection read back through Has/Len/Size/PeekNext)
-// for trace validation against the TLA+ specification.
+// for trace validation against the TLA+ specification.  Includes Mempool.Top with a scripted visitor, also with a
+// call from another goroutine started inside a visit (it must linearize entirely before or after the whole Top).
 package mempool_test
 
 import (
@@ -13,7 +14,10 @@ import (
 	"os"
 	"path/filepath"
 	"strconv"
+	"sync"
+	"sync/atomic"
 	"testing"
+	"time"
 
 	"github.com/ava-labs/avalanchego/ids"
 	"github.com/ava-labs/avalanchego/trace"
@@ -83,18 +87,73 @@ func (r *mpRec) log(m map[string]any) {
 	r.lines = append(r.lines, m)
 }
 
-func (r *mpRec) dump(t *testing.T, name string) {
+func (r *mpRec) dump(name string) error {
 	f, err := os.Create(filepath.Join(os.Getenv("VERIF_OUT"), name+".ndjson"))
 	if err != nil {
-		t.Fatal(err)
+		return err
 	}
 	defer f.Close()
 	enc := json.NewEncoder(f)
 	for _, l := range r.lines {
 		if err := enc.Encode(l); err != nil {
-			t.Fatal(err)
+			return err
 		}
 	}
+	return nil
+}
+
+// top runs Mempool.Top with a scripted visitor: visit k answers restore[k]; the visit number stopAt (1-based, 0 = never)
+// answers "stop". When conc != nil it is started on another goroutine from inside visit number concAt (0-based); the
+// visitor waits a bounded time for it (with a correct mempool the call blocks until Top returns), carries on, and the
+// goroutine is joined after Top returned. Start/end of both calls are stamped with one atomic sequence counter.
+func (r *mpRec) top(rg *rand.Rand, stopAt int, concAt int, conc func()) (visits []map[string]any, stopped bool, seq map[string]any, err error) {
+	var ctr atomic.Int64
+	restore := make([]bool, 16)
+	for i := range restore {
+		restore[i] = rg.Intn(2) == 0
+	}
+	visits = []map[string]any{}
+	var done chan struct{}
+	var concCall, concRet atomic.Int64
+	topCall := ctr.Add(1)
+	terr := r.m.Top(r.ctx, time.Hour, func(_ context.Context, it *mpItem) (bool, bool, error) {
+		k := len(visits)
+		if k >= len(restore) {
+			return false, false, fmt.Errorf("visitor called %d times", k+1)
+		}
+		visits = append(visits, map[string]any{"i": it.name, "restore": restore[k]})
+		if conc != nil && k == concAt && done == nil {
+			done = make(chan struct{})
+			started := make(chan struct{})
+			go func() {
+				concCall.Store(ctr.Add(1))
+				close(started)
+				conc()
+				concRet.Store(ctr.Add(1))
+				close(done)
+			}()
+			<-started // the call is stamped and about to be issued; give it a bounded time to get through
+			select {
+			case <-done:
+			case <-time.After(30 * time.Millisecond):
+			}
+		}
+		stopped = k+1 == stopAt
+		return !stopped, restore[k], nil
+	})
+	topRet := ctr.Add(1)
+	if terr != nil {
+		return visits, stopped, nil, terr
+	}
+	if done != nil {
+		select {
+		case <-done:
+		case <-time.After(30 * time.Second):
+			return visits, stopped, nil, fmt.Errorf("concurrent call did not return within 30s after Top returned")
+		}
+	}
+	seq = map[string]any{"topCall": topCall, "topRet": topRet, "concCall": concCall.Load(), "concRet": concRet.Load()}
+	return visits, stopped, seq, nil
 }
 
 func mpNamesOf(its []*mpItem) []string {
@@ -113,12 +172,21 @@ func TestVerifMempoolRecord(t *testing.T) {
 	seed := int64(mpEnvInt("VERIF_SEED", 1))
 	scen := mpEnvInt("VERIF_SCENARIOS", 100)
 	depth := mpEnvInt("VERIF_DEPTH", 60)
-	stats := map[string]int{}
+	total := map[string]int{}
 	ctx := context.Background()
-	for s := 0; s < scen; s++ {
-		if only := os.Getenv("VERIF_ONLY"); only != "" && only != strconv.Itoa(s) {
-			continue
-		}
+	var mu sync.Mutex
+	var firstErr error
+	var wg sync.WaitGroup
+	jobs := make(chan int)
+	runScenario := func(s int) error {
+		stats := map[string]int{}
+		defer func() {
+			mu.Lock()
+			for k, v := range stats {
+				total[k] += v
+			}
+			mu.Unlock()
+		}()
 		r := rand.New(rand.NewSource(seed*1_000_003 + int64(s)))
 		nItems := 3 + r.Intn(6) // 3..8 items in play
 		nSp := 1 + r.Intn(3)
@@ -189,18 +257,65 @@ func TestVerifMempoolRecord(t *testing.T) {
 			case c < 58:
 				n := mpNames[r.Intn(nItems)]
 				rec.log(map[string]any{"ev": "has", "i": n, "ok": rec.m.Has(ctx, mpID(n))})
+			case c < 62: // Top with a scripted visitor
+				visits, stopped, _, err := rec.top(r, r.Intn(4), 0, nil)
+				if err != nil {
+					return err
+				}
+				if len(visits) > 0 {
+					stats["top_with_visits"]++
+				}
+				for _, v := range visits {
+					if v["restore"].(bool) {
+						stats["top_give_backs"]++
+					}
+				}
+				rec.log(map[string]any{"ev": "top", "visits": visits, "stopped": stopped})
+			case c < 65: // Top while another goroutine calls Add / Remove / SetMinTimestamp from inside a visit
+				first, ok := rec.m.PeekNext(ctx)
+				if !ok {
+					break
+				}
+				conc := map[string]any{"op": "add", "ids": []string{}, "t": 0, "out": []string{}}
+				var call func()
+				switch cc := r.Intn(10); {
+				case cc < 6:
+					its := pick(r.Intn(3))
+					if r.Intn(2) == 0 {
+						its = append(its, first) // re-add of the item that is being visited (with the unchanged code: first)
+					}
+					conc["ids"] = mpNamesOf(its)
+					call = func() { rec.m.Add(ctx, its) }
+				case cc < 8:
+					its := pick(1 + r.Intn(2))
+					conc["op"], conc["ids"] = "remove", mpNamesOf(its)
+					call = func() { rec.m.Remove(ctx, its) }
+				default:
+					tmin := int64(r.Intn(7))
+					conc["op"], conc["t"] = "setmin", tmin
+					call = func() { conc["out"] = mpNamesOf(rec.m.SetMinTimestamp(ctx, tmin)) }
+				}
+				visits, stopped, seq, err := rec.top(r, r.Intn(4), 0, call)
+				if err != nil {
+					return err
+				}
+				stats["top_with_concurrent_call"]++
+				if seq["concRet"].(int64) > seq["topRet"].(int64) {
+					stats["concurrent_call_returned_after_top"]++
+				}
+				rec.log(map[string]any{"ev": "topc", "visits": visits, "stopped": stopped, "conc": conc, "seq": seq})
 			case !streaming:
 				rec.m.StartStreaming(ctx)
 				streaming, fetched, handed = true, false, handed[:0]
 				stats["streams"]++
 				rec.log(map[string]any{"ev": "start"})
-			case c < 70 && !fetched:
+			case c < 75 && !fetched:
 				cnt := 1 + r.Intn(3)
 				rec.m.PrepareStream(ctx, cnt)
 				fetched = true
 				stats["prepares"]++
 				rec.log(map[string]any{"ev": "prepare", "k": cnt})
-			case c < 88:
+			case c < 91:
 				cnt := 1 + r.Intn(3)
 				out := rec.m.Stream(ctx, cnt)
 				fetched = false
@@ -231,9 +346,36 @@ func TestVerifMempoolRecord(t *testing.T) {
 				rec.log(map[string]any{"ev": "finish", "restore": mpNamesOf(restore), "n": n})
 			}
 		}
-		rec.dump(t, fmt.Sprintf("sc-%05d", s))
+		return rec.dump(fmt.Sprintf("sc-%05d", s))
 	}
-	out, _ := json.Marshal(stats)
+	// scenarios are independent; run them on a few goroutines (the concurrent-Top scenarios wait 30 ms each)
+	for wk := 0; wk < 8; wk++ {
+		wg.Add(1)
+		go func() {
+			defer wg.Done()
+			for s := range jobs {
+				if err := runScenario(s); err != nil {
+					mu.Lock()
+					if firstErr == nil {
+						firstErr = fmt.Errorf("scenario %d: %w", s, err)
+					}
+					mu.Unlock()
+				}
+			}
+		}()
+	}
+	for s := 0; s < scen; s++ {
+		if only := os.Getenv("VERIF_ONLY"); only != "" && only != strconv.Itoa(s) {
+			continue
+		}
+		jobs <- s
+	}
+	close(jobs)
+	wg.Wait()
+	if firstErr != nil {
+		t.Fatal(firstErr)
+	}
+	out, _ := json.Marshal(total)
 	if err := os.WriteFile(filepath.Join(os.Getenv("VERIF_OUT"), "record_stats.json"), out, 0o644); err != nil {
 		t.Fatal(err)
 	}
